@@ -26,6 +26,10 @@ type c11Scen struct {
 	// change what the container answers afterwards
 	Traffic []int `json:"traffic_during_history,omitempty"`
 	Preempt int   `json:"preempt_permille,omitempty"`
+	// Crowd: the last so many services (roots /m<k>, one route each) exist beside the others: the history
+	// starts by adding all of them and removing a part again, so the number of registered services
+	// crosses 8, 16, 32 upwards and downwards before the generated operations begin
+	Crowd int `json:"crowd_services,omitempty"`
 }
 
 var c11Roots = []string{"/a", "/b", "/a/{v}", "/", "/a/", "/a/b", "/ab", "/{v}", "/a/{v}/x", "/a/{v}/y", "/users/{id}/a", "/users/{id}/b"}
@@ -124,6 +128,37 @@ func genC11(x *Ctx) *c11Scen {
 			sc.Ops = append(sc.Ops, AdminOp{Kind: kind, Plain: p.ID})
 		}
 	})
+	if tp.Chance(14) {
+		sc.Crowd = []int{9, 14, 17, 24, 40}[tp.G(5)]
+		var pre []AdminOp
+		for k := 0; k < sc.Crowd; k++ {
+			rid++
+			id := len(sc.Svcs)
+			sc.Svcs = append(sc.Svcs, SvcSpec{ID: id, Root: fmt.Sprintf("/m%d", k), Dynamic: true, Routes: []RouteSpec{{ID: rid, Method: "GET", Path: "/x"}}})
+			pre = append(pre, AdminOp{Kind: "add", Svc: id})
+		}
+		// some of them leave again, in a tape-chosen order
+		gone := tp.Perm(sc.Crowd)
+		for _, k := range gone[:tp.Range(sc.Crowd/2, sc.Crowd)] {
+			pre = append(pre, AdminOp{Kind: "remove", Svc: nSvc + k})
+		}
+		sc.Ops = append(pre, sc.Ops...)
+	}
+	if tp.Chance(25) && len(sc.Ops) > 0 {
+		// the long-lived server: hundreds of requests to different URLs between two registration changes
+		ns := []int{40, 140, 300, 560}
+		if x.Thorough() {
+			ns = append(ns, 1100)
+		}
+		at := tp.G(len(sc.Ops))
+		ops := append([]AdminOp{}, sc.Ops[:at]...)
+		b := AdminOp{Kind: "burst", N: ns[tp.G(len(ns))]}
+		if nx := sc.Ops[at]; tp.Chance(750) && (nx.Kind == "route" || nx.Kind == "unroute" || nx.Kind == "add" || nx.Kind == "remove") {
+			b.Focus = nx.Svc + 1
+		}
+		ops = append(ops, b)
+		sc.Ops = append(ops, sc.Ops[at:]...)
+	}
 	sc.NoTrim = tp.Chance(120)
 	if tp.Chance(80) {
 		sc.Options = true
@@ -224,8 +259,11 @@ func runC11(x *Ctx) {
 	w := &World{Svcs: sc.Svcs, Router: sc.Router, Filters: sc.Filters, Plains: sc.Plains, Options: sc.Options}
 	w.index()
 	init := RegState{Routes: map[int][]int{}, Twins: map[int][]int{}}
-	for _, sp := range sc.Svcs {
+	for i, sp := range sc.Svcs {
 		init.Routes[sp.ID] = []int{}
+		if i >= len(sc.Svcs)-sc.Crowd {
+			init.Routes[sp.ID] = []int{sp.Routes[0].ID} // crowd services come with their route
+		}
 		for _, a := range sp.Routes {
 			for _, b := range sp.Routes {
 				if a.Method == b.Method && a.Path == b.Path {
@@ -236,6 +274,12 @@ func runC11(x *Ctx) {
 	}
 	w.Start(init)
 	probes := c11Probes(sc)
+	w.BurstProbes = probes
+	for _, op := range sc.Ops {
+		if op.Kind == "burst" {
+			s.MaxSteps += 12 * (op.N + len(probes))
+		}
+	}
 	ref := NewReference(w)
 	type mismatch struct {
 		after int
@@ -248,6 +292,11 @@ func runC11(x *Ctx) {
 	st := init
 	compared := 0
 	callerDone := false
+	// the crowd's arrival and partial departure at the start of the history is probed once, at its end
+	crowdPre := 0
+	for crowdPre < len(sc.Ops) && sc.Crowd > 0 && sc.Ops[crowdPre].Svc >= len(sc.Svcs)-sc.Crowd && (sc.Ops[crowdPre].Kind == "add" || sc.Ops[crowdPre].Kind == "remove") {
+		crowdPre++
+	}
 	s.Go("caller", func(t *sim.Task) {
 		for i, op := range sc.Ops {
 			t.Ev("op", op.String(), i)
@@ -256,7 +305,7 @@ func runC11(x *Ctx) {
 				callerDone = true
 			}
 			t.Y(sim.SiteAdminPost)
-			if sc.EveryPrefix || i == len(sc.Ops)-1 {
+			if (sc.EveryPrefix && i >= crowdPre-1) || i == len(sc.Ops)-1 {
 				for _, p := range probes {
 					for entry := 0; entry < 2; entry++ {
 						got = append(got, mismatch{after: i, entry: entry, p: p, got: ServeProbe(w.C, entry, p, nil, 0)})
@@ -308,6 +357,10 @@ func runC11(x *Ctx) {
 	for _, op := range sc.Ops {
 		if op.Kind == "remove" || op.Kind == "unroute" {
 			removes++
+		}
+		if op.Kind == "burst" {
+			x.Count("reach:burst-of-distinct-urls")
+			x.CountN("burst-requests", op.N)
 		}
 	}
 	x.Res.Nontrivial = removes > 0 && len(sc.Ops) >= 3
